@@ -243,7 +243,7 @@ def _make_world(seed, kind):
     if kind == "events":
         return c14.event_world(seed, twins=False), False      # exact positional ties are outside the quantifier of C11
     if kind == "noise-free":
-        w = world2.rich_world(seed, n_chroms=3, genes_per_chrom=3, reads_per_t=0, hidden_cov=0, multimappers=False, unmapped=0, extra_len=170000)
+        w = world2.rich_world(seed, n_chroms=3, genes_per_chrom=3, reads_per_t=0, hidden_cov=0, multimappers=False, unmapped=0, extra_len=260000)
         rng = w.rng
         # unannotated isoforms whose first (last) exon begins (ends) in the middle of an intron of the annotated isoform, on both strands:
         # the left-hand and the right-hand version are mirror images of each other
